@@ -8,13 +8,15 @@ SUITE = "world"
 LEAN_TARGETS = ["TypedpyModel.Props.C15", "TypedpyModel.Audit.C15"]
 AUDIT = "C15"
 THEOREMS = ["Typedpy.C15." + t for t in (
-    "frame", "frame_alone", "use_changes_no_view", "use_preserves_coherence",
-    "define_preserves_coherence", "define_changes_no_other_class", "accept_decision_frame", "safe_config_of_safe_tables",
-    "C15_of_safe_config", "frame_safe_tables", "current_config_safe", "unsafe_rows_are_outside_model", "tables_ok",
-    "C15_today", "excluded_today", "use_changes_no_view_today", "pinned_config",
-    "config_no_worse", "name_keyed_registry_breaks_frame", "inplace_required_breaks_frame", "registry_fixed_example",
-    "required_fixed_example", "C15_statement_fails_with_findings", "counterexamples_are_excluded", "frame_example",
-    "camel_key_dropped_breaks_frame", "refs_example")]
+    "frame", "frame_alone", "use_changes_no_view", "create_serializer_frame", "use_preserves_coherence",
+    "create_serializer_preserves_coherence", "define_preserves_coherence", "define_changes_no_other_class",
+    "accept_decision_frame", "safe_config_of_safe_tables", "C15_of_safe_config", "frame_safe_tables",
+    "current_config_safe", "unsafe_rows_are_outside_model", "tables_ok", "C15_today_partial",
+    "excluded_today", "use_changes_no_view_today", "pinned_config", "config_no_worse",
+    "name_keyed_registry_breaks_frame", "inplace_required_breaks_frame", "registry_fixed_example",
+    "required_fixed_example", "C15_statement_fails_with_findings", "counterexamples_are_excluded",
+    "frame_example", "camel_key_dropped_breaks_frame", "refs_example", "nested_frame_example",
+    "nested_create_example", "mro_serializer_breaks_frame", "C15_statement_fails_today")]
 RULE = ("histories of 2-5 (thorough: 2-7) class definitions — roots, subclasses, Omit/Pick/Partial/AllFieldsRequired/"
         "Extend-derived classes, FastSerializable classes, same-named classes, snake_case field names of which half "
         "come from a small pool so that unrelated classes share field names, renamed serialization keys, fields that "
